@@ -34,6 +34,14 @@ def run(ctx):
     _onset(ctx)
     _providers(ctx)
     _own_definition(ctx)
+    # position in the file: a value that follows the VTIMEZONE of its TZID is decoded with that
+    # definition whatever was looked up before (parse-loop model with a provider that learns ids)
+    from .. import parseloop
+    parseloop.report(ctx, "C12/POSITION",
+                     lambda d: d["cause"] == "TZID forwarding differs" and any("VTIMEZONE" in l for l in d["labels"]),
+                     "values after a VTIMEZONE are decoded with the zone it defines",
+                     laws=("a TZID that is defined earlier in the file reaches the decoder resolved",
+                           "a lookup before the definition does not affect values after it"))
 
 
 # ---------------------------------------------------------------------------
